@@ -71,11 +71,17 @@ def check_accumulate(ctx: Ctx, ic):
     if fi is None:
         raise AnchorError(IC + ".compile_xor", "not found")
     d_names = c02.dest_aliases(fi)
+    loops = [l for l in q.for_loops(fi.node) if norm(l.iter).endswith(".args")]
+    if len(loops) != 1:
+        raise AnchorError(fi.short, f"{len(loops)} loops over the operands")
     for n in walk_no_nested(fi.node):
         if isinstance(n, ast.Assign) and isinstance(n.targets[0], ast.Name) and n.targets[0].id in d_names and n.targets[0].id != "dest":
             v = n.value
-            if isinstance(v, ast.IfExp):
-                ctx.ok("TS-DEST", fi, f"{n.targets[0].id} initialised", norm(v), n)
+            if not q.contains(loops[0], n):
+                # initialisation before the operands are visited: the caller's destination or a fresh ancilla
+                alts = [v.body, v.orelse] if isinstance(v, ast.IfExp) else [v]
+                good = all((isinstance(a, ast.Name) and a.id in d_names) or (isinstance(a, ast.Call) and dotted(a.func) in ("qc.get_free_ancilla", "qc.add_qubit", "qc.add_ancilla")) for a in alts)
+                ctx.check(good, "TS-DEST", fi, f"{n.targets[0].id} initialised with the destination or a fresh ancilla", norm(v), f"`{norm(n)}`: the accumulator must start as the caller's destination or a fresh (zero) ancilla", n)
                 continue
             ok = isinstance(v, ast.Call) and dotted(v.func) == "self.compile_expr" and any(k.arg == "dest" and norm(k.value) in d_names for k in v.keywords)
             ctx.check(ok, "TS-DEST", fi, f"{n.targets[0].id} re-bound only to a callee that was handed it", norm(v), f"`{norm(n)}` re-binds the accumulator to something not computed into it: previously accumulated terms are lost", n)
